@@ -22,7 +22,7 @@ RULE = ("scenario = 1..3 clients x 1..8 messages (requests and notifications ove
         "notification name, random method strings; params of every JSON shape; ids 0/negative/big/strings/empty) x handler behaviour per call "
         "(buggify: returns / raises / returns nonsense / sleeps first / raises after sleeping) x dispatch mode (serial / task per message); "
         "non-trivial = a notification was dispatched to something other than notifications/initialized, or a handler fault fired, or dispatches overlapped")
-PROBES = ["second_server_instance", "notification_unregistered_method", "notification_to_request_method", "handler_raised", "handler_returned_nonsense",
+PROBES = ["dispatch_on_session_from_earlier_initialize", "second_server_instance", "notification_unregistered_method", "notification_to_request_method", "handler_raised", "handler_returned_nonsense",
           "dispatches_overlapped", "unknown_tool_or_resource", "unhashable_name", "empty_method", "id_zero_or_empty"]
 TIERS = {"quick": {"runs": 25000, "wall": 45.0}, "thorough": {"runs": 2000000, "wall": 560.0}}
 ASSUMPTIONS = [
@@ -56,7 +56,8 @@ def _params_for(method, rng):
         return rng.choice([{"uri": "file:///a.txt"}, {"uri": "file:///flaky"}, {"uri": "file:///missing"}, {"uri": None}, {"uri": ["x"]}, {}, None])
     if method == "initialize":
         return rng.choice([None, {}, {"protocolVersion": "2025-06-18", "clientInfo": {"name": "c", "version": "1"}, "capabilities": {}},
-                           {"protocolVersion": 5, "clientInfo": "str"}])
+                           {"protocolVersion": 5, "clientInfo": "str"}, {"protocolVersion": "2025-06-18", "clientInfo": None, "capabilities": {}},
+                           {"protocolVersion": "2025-03-26", "clientInfo": ["n", 1]}, {"protocolVersion": "2025-06-18", "clientInfo": 7}])
     return rng.choice([None, None, {}, {"a": 1}, {"requestId": 3, "reason": "x"}, {"progressToken": "t", "progress": 1}, {"_meta": {}}])
 
 
@@ -74,10 +75,13 @@ def generate(rng: random.Random, tier: str) -> dict:
             method = rng.choice(RANDOM_METHODS)
         m = {"client": rng.randrange(nclients), "method": method, "params": _params_for(method, rng), "notif": is_notif,
              "build": rng.choice(["typed", "parse_message"]), "behav": rng.choice(BEHAV), "sleep": rng.choice([1, 10, 200]),
-             "session": rng.choice([None, None, "unknown", "known"]), "gap": rng.choice([0, 0, 1, 5])}
+             "session": rng.choice([None, None, "unknown", "known", "initialized", "initialized"]), "gap": rng.choice([0, 0, 1, 5])}
         if not is_notif:
             m["id"] = rng.choice(IDS)
         msgs.append(m)
+    if rng.random() < 0.25:
+        msgs.insert(0, {"client": 0, "method": "initialize", "params": _params_for("initialize", rng), "notif": False, "build": rng.choice(["typed", "parse_message"]),
+                        "behav": "ok_str", "sleep": 1, "session": None, "gap": 0, "id": "init-0"})
     return {"v": 1, "mode": rng.choice(["serial", "task_per_message"]), "msgs": msgs, "second_server": rng.random() < 0.3}
 
 
@@ -237,12 +241,17 @@ def execute(scn: dict) -> dict:
             except Exception as e:
                 st["results"][k] = ("unbuildable", repr(e)[:80])
                 return
-            sid = {None: None, "unknown": "no-such-session", "known": known_sid}[m["session"]]
+            # "initialized": the session id handed out by the latest initialize of this run (whatever clientInfo that one carried)
+            sid = {None: None, "unknown": "no-such-session", "known": known_sid, "initialized": st.get("last_init_sid")}[m["session"]]
+            if m["session"] == "initialized" and sid is not None:
+                sim.probe("dispatch_on_session_from_earlier_initialize")
             cur["behav"], cur["sleep"] = m["behav"], m["sleep"]
             sim.rec(f"client-{m['client']}", "dispatch", None)
             try:
                 res = await ph.handle_message(msg, sid)
                 st["results"][k] = ("return", res)
+                if m["method"] == "initialize" and isinstance(res, tuple) and len(res) == 2 and isinstance(res[1], str):
+                    st["last_init_sid"] = res[1]
             except BaseException as e:  # noqa
                 st["results"][k] = ("raise", e)
             sim.rec("server", "dispatched", None)
